@@ -96,7 +96,9 @@ def run_benign(m):
             return m["name"], "NOCOMPILE", r.stdout[-1500:]
         if r.returncode != 0 or "VIOLATION" in r.stdout:
             lines = [l for l in r.stdout.splitlines() if l.startswith(("VIOLATION", "  rule="))]
-            return m["name"], "FALSE-ALARM", "\n".join(lines[:12]) + "\n" + "\n".join(l for l in r.stdout.splitlines() if l.strip().startswith(("rule=",)) )[:0]
+            if not lines:
+                lines = ["(exit %d without a VIOLATION line; last output:)" % r.returncode] + r.stdout.splitlines()[-25:]
+            return m["name"], "FALSE-ALARM", "\n".join(lines[:40])
         return m["name"], "SILENT", ""
     finally:
         shutil.rmtree(t, ignore_errors=True)
